@@ -407,16 +407,19 @@ def run_inproc(base, seq_idx, seed, sh):
 
 
 def shard_run(arg):
-    seed, idxs, work = arg
+    seed, idxs, work = arg[:3]
     sh = vp.Shard()
     base = os.path.join(work, "w%d" % os.getpid())
     os.makedirs(base, exist_ok=True)
+    phase.EXTRA_ENV.clear()
+    phase.EXTRA_ENV.update(arg[3] if len(arg) > 3 else {})
     try:
         for idx in idxs:
             run_case(base, gen_case(vp.rng(seed, "c06", idx), idx), sh)
             if idx % 10 == 3:
                 run_inproc(base, idx, seed, sh)
     finally:
+        phase.EXTRA_ENV.clear()
         vp.rmtree(base)
     return sh.dict()
 
@@ -426,6 +429,22 @@ def run(tier, seed, work):
     n = 5000 if tier == "quick" else 160000
     for d in vp.pmap(shard_run, [(seed, s, work) for s in vp.split(range(n), vp.NCPU)]):
         res.merge(d)
+    # ambient-read monitor: which environment variables do the phases ask for besides their documented inputs? Each such name is set to a
+    # hostile value and a part of the workload runs again (the oracle knows only the documented inputs)
+    lay = phase.Layout(os.path.join(work, "envprobe"))
+    lay.create()
+    with open(os.path.join(lay.bp, "buildpack.toml"), "w") as f:
+        f.write(phase.BP_TOML_OK)
+    os.makedirs(os.path.join(lay.platform, "env"))
+    with open(lay.plan, "w") as f:
+        f.write("")
+    asked = phase.env_reads(lay, [("detect", lay.detect_args(), lay.env(), {"detect": {"result": "pass"}}), ("build", lay.build_args(), lay.env(), {"build": {"result": "ok", "launch": None, "store": None, "build_sboms": [], "launch_sboms": []}})])
+    vp.rmtree(lay.root)
+    res.extra["environment_variables_asked_for"] = asked
+    if asked:
+        hostile = {name: os.path.join(vp.ambient_dir(), "decoy") for name in asked}
+        for d in vp.pmap(shard_run, [(seed, s, work, hostile) for s in vp.split(range(min(n, 600)), vp.NCPU)]):
+            res.merge(d)
     res.rule = ("evaluations = phase executions whose context dump was compared with the generated inputs. distinct_nontrivial = distinct (phase, set of entry kinds in <platform>/env "
                 "[file, dir, link-file, link-dir, dangling, bad-utf8], env dir present, plan size, store.toml kind, arch variant present) combinations, plus (error, cause, phase) classes")
     res.assumptions = ["directories, symlinks to directories and dangling links inside <platform>/env are expected to be skipped silently; a missing env dir / store.toml is tolerated",
